@@ -2,6 +2,7 @@
 // rapidcheck draws a thread-program descriptor in this (plain) parent; each case is executed by a FRESH ThreadSanitizer
 // child process (props/c12_child.cpp), so first-use state is really first use. Oracle: zero TSan reports (exit 66),
 // concurrent == sequential bitwise, shared tables unchanged (exit 3).
+#include <signal.h>
 #include <sys/wait.h>
 #include <unistd.h>
 
@@ -56,6 +57,9 @@ std::vector<Sub> vh_subs() {
       for (auto& ch : rep) if (ch == '\n') ch = '|';
       return ctx.failf("ThreadSanitizer report in a %s process (N=%llu, %lld threads): %s", v[3] ? "warmed-up" : "fresh", 1ull << v[0], (long long)v[1], rep.c_str());
     }
+    if (rc == 128 + SIGALRM)
+      return ctx.failf("N=%llu %lld threads (%s process): the thread program did not finish within 180 s (hang / livelock under concurrent use; sequentially it takes < 1 s): %s",
+                       1ull << v[0], (long long)v[1], v[3] ? "warmed-up" : "fresh", out.substr(0, 300).c_str());
     if (rc == 3) return ctx.failf("N=%llu %lld threads: %s", 1ull << v[0], (long long)v[1], out.substr(0, 400).c_str());
     if (rc != 0) return ctx.failf("child failed unexpectedly rc=%d: %s", rc, out.substr(out.size() > 600 ? out.size() - 600 : 0).c_str());
     size_t p = out.find("SHARED");
